@@ -198,6 +198,19 @@ func fixedGraphs() []*ggraph {
 		}
 		out = append(out, finish(&ggraph{mods: mods, shape: fmt.Sprintf("fixed-starchain-%d", levels), rootType: "module", subType: "module"}))
 	}
+	// 19-20. import() of CommonJS files (with the __esModule marker assigned, defined, or absent) from
+	// ESM-typed importers (.mjs, and .js under "type": "module"): node mode, ns.default is
+	// module.exports; static default / namespace imports of the same files as controls
+	for _, ep := range []string{"e.mjs", "e.js"} {
+		e := esm(0, ep)
+		l1 := &gmod{id: 1, kind: modCJS, path: "l1.cjs", cjsEsm: true, locals: []localExport{v2("x")}}
+		l2 := &gmod{id: 2, kind: modCJS, path: "l2.cjs", cjsEsm: true, cjsEsmDefine: true, locals: []localExport{v2("x")}}
+		l3 := &gmod{id: 3, kind: modCJS, path: "l3.cjs", locals: []localExport{v2("x"), v2("y")}}
+		e.dyn = []int{1, 2, 3}
+		e.imports = []gimport{{1, "default", "", "d1"}, {2, "default", "", "d2"}, {3, "default", "", "d3"},
+			{1, "ns", "", "n1"}, {3, "ns", "", "n3"}, {2, "named", "x", "x2"}}
+		out = append(out, finish(&ggraph{mods: []*gmod{e, l1, l2, l3}, shape: "fixed-dyn-cjs-" + ep, rootType: "module", subType: "module"}))
+	}
 	// 18. repaired finding C02-A (fix a7bd0a8), must pass: one binding exported under two names and
 	// re-exported to the same name along two export-star paths is not ambiguous
 	out = append(out, aliasTwoNamesGraph())
@@ -282,6 +295,16 @@ func knownEsmRuntimeStarGraph() *ggraph {
 	return finish(&ggraph{mods: []*gmod{e, mid, leaf}, shape: "known", rootType: "module", subType: "module", allowKnown: true})
 }
 
+// eighth known finding (deliberate Babel interop): import() of a CommonJS file carrying the __esModule
+// marker from a file that is NOT ESM-typed (.cjs / .js without "type": "module") yields
+// ns.default = module.exports.default; native node always gives module.exports
+func knownUntypedImportGraph() *ggraph {
+	u := &gmod{id: 0, kind: modCJS, path: "e.cjs", locals: []localExport{v2("own")}}
+	l1 := &gmod{id: 1, kind: modCJS, path: "l1.cjs", cjsEsm: true, locals: []localExport{v2("x")}}
+	u.dyn = []int{1}
+	return finish(&ggraph{mods: []*gmod{u, l1}, shape: "known", rootType: "", subType: "commonjs", allowKnown: true})
+}
+
 func knownFindings(st *Stats) {
 	plain := buildCfg{"esm", "node", false}
 	for _, k := range []struct {
@@ -292,11 +315,13 @@ func knownFindings(st *Stats) {
 		{knownExportlessGraph(), "known-import-from-exportless-module-accepted", plain},
 		{knownUnusedMissingGraph(), "known-minify-drops-unused-missing-import", buildCfg{"esm", "node", true}},
 		{knownStaleReexportGraph(), "known-star-cycle-commonjs-reexport-copied-too-early", plain},
-		{knownEsmRuntimeStarGraph(), "known-esm-format-entry-loses-runtime-star-exports", plain}} {
+		{knownEsmRuntimeStarGraph(), "known-esm-format-entry-loses-runtime-star-exports", plain},
+		{knownUntypedImportGraph(), "known-untyped-importer-dynamic-import-babel-interop", plain}} {
 		desc := k.g.describe()
 		desc["scenario"] = k.scenario
 		delete(desc, "entry_dynamic_exports") // the recorded scenarios compare everything
-		outs := runJobs([]glueJob{{k.g.render(), "e.mjs", "e.mjs", true, []buildCfg{k.cfg}, desc, "known"}})
+		ep := k.g.mods[k.g.entry].path
+		outs := runJobs([]glueJob{{k.g.render(), ep, ep, k.g.isESM(k.g.entry), []buildCfg{k.cfg}, desc, "known"}})
 		for _, o := range outs[0] {
 			if o.kind == "fail" {
 				st.Note("known:"+k.scenario, "1", true)
